@@ -48,6 +48,9 @@ def concStoreLine (st : CsRun) (lineNo : Nat) (line : String) : Except String (C
         [s!"PROPFAIL C16 concurrent_lookup_gets_handle {tag} (a second store in the process looked up a name the first store was looking up at the same time: its lookup failed or yielded a value its own service never served)",
          s!"PROPFAIL C12 really_served {tag} (a second store's lookup yielded a value its own service never served)"]) ++
       (if n "upd_e_stale" == 0 then [] else [s!"PROPFAIL C15 no_lost_update {tag} (an updater on a looked-up secret is built from old bytes after a completed refresh)"]) ++
+      (if n "cr_fail" == 0 then [] else [s!"PROPFAIL C15 concurrent_registration {tag} (an updater created at the same time as two others on a name the store had to look up was refused)",
+                                         s!"PROPFAIL C16 concurrent_lookup_gets_handle {tag} (concurrent NewUpdater calls on an unknown name)"]) ++
+      (if n "cr_stale" == 0 then [] else [s!"PROPFAIL C15 no_lost_update {tag} (three updaters registered at the same moment on a looked-up name: after an install and a completed refresh one of them still yields the old version - its registration was lost)"]) ++
       (if n "cu_stale_get" == 0 then [] else [s!"PROPFAIL C15 next_get_sees_newest {tag}"]) ++
       (if ((lookup fs "cu_final").getD "2") == "2" then [] else [s!"PROPFAIL C15 no_lost_update {tag} (quiescent Get after two installs)"]) ++
       (if n "cu_cur_closed" == 0 then [] else [s!"PROPFAIL C15 current_never_closed {tag}"]) ++
